@@ -55,7 +55,10 @@ def bits_f64(b):
 
 
 def f32_bits(x):
-    return struct.unpack("<I", struct.pack("<f", x))[0]
+    try:
+        return struct.unpack("<I", struct.pack("<f", x))[0]
+    except OverflowError:            # rounds to infinity in binary32
+        return 0x7F800000 if x > 0 else 0xFF800000
 
 
 def bits_f32(b):
